@@ -113,7 +113,7 @@ def main():
             unmapped.append(name)
             continue
         cm = {m[0]: m for m in cview[cn]["members"]}
-        pairs, unmatched, renamed = [], [], []
+        pairs, unmatched, renamed, signs = [], [], [], []
         for fld in cls._fields_:
             pyname, t = fld[0], fld[1]
             d = getattr(cls, pyname)
@@ -136,11 +136,21 @@ def main():
                 continue
             c = list(cm[key])
             ckind_rw = c[3]
+            # signedness: compared separately from the layout (reported under its own key per field)
+            pysigned = None
+            try:
+                if issubclass(t, ctypes._SimpleCData) and t._type_ in "bhilqBHILQ?":
+                    pysigned = t._type_ in "bhilq"
+            except TypeError:
+                pass
+            csigned = True if c[3] == "int" else False if c[3] == "uint" else None
+            if pysigned is not None and csigned is not None and pysigned != csigned and not pyname.startswith("_"):
+                signs.append([name, pyname, "signed" if pysigned else "unsigned", "signed" if csigned else "unsigned"])
             if c[3] == "uint":
-                c[3] = "int"            # signedness is not compared (enumerators and counters are non-negative)
+                c[3] = "int"
             p = [pyname, d.offset, d.size, pykind(t)]
             pairs.append({"c": c, "p": p, "rw": rw(cls, pyname, c[1], c[2], ckind_rw if pykind(t) != "int" or ckind_rw != "uint" else "int")})
-        out.write(json.dumps({"kind": "struct", "py": name, "cstruct": cn, "pairs": pairs, "unmatched": unmatched, "renamed": renamed,
+        out.write(json.dumps({"kind": "struct", "py": name, "cstruct": cn, "pairs": pairs, "unmatched": unmatched, "renamed": renamed, "signs": signs,
                               "csize": cview[cn]["size"], "psize": ctypes.sizeof(cls)}) + "\n")
     # options
     sim = rebound.Simulation()
@@ -172,6 +182,26 @@ def main():
                     rb = "error: %s" % str(e)[:80]
                 row.update({"stored": stored, "expected": enumvals.get(sym, -12345), "readback": rb if isinstance(rb, str) else repr(rb)})
             rows.append(row)
+            # the same option selected by its integer value: the same member must end up holding it, and no other byte of the structure may change
+            if cmem[3] != "ptr" and sym in enumvals:
+                try:
+                    other = [r_[0] for r_ in o["pairs"] if r_[0] != nm]
+                    if other:
+                        setattr(owner, o["attr"], other[0])
+                    before = ctypes.string_at(ctypes.addressof(owner), ctypes.sizeof(ocls))
+                    setattr(owner, o["attr"], int(enumvals[sym]))
+                    after = ctypes.string_at(ctypes.addressof(owner), ctypes.sizeof(ocls))
+                    changed = [k for k in range(len(before)) if before[k] != after[k]]
+                    outside = [k for k in changed if not (cmem[1] <= k < cmem[1] + cmem[2])]
+                    st2 = struct.unpack("i" if cmem[2] == 4 else "q", after[cmem[1]:cmem[1] + cmem[2]])[0]
+                    rb2 = getattr(owner, o["attr"])
+                    if outside or st2 != enumvals[sym] or rb2 != nm:
+                        rows.append({"name": nm + " (by value %d)" % enumvals[sym], "symbol": sym, "stored": st2 if not outside else -3, "expected": enumvals[sym],
+                                     "readback": ("bytes outside the member changed at offsets %s" % outside[:4]) if outside else repr(rb2)})
+                    else:
+                        rows.append({"name": nm, "symbol": sym, "stored": st2, "expected": enumvals[sym], "readback": nm})
+                except Exception as e:  # noqa: BLE001
+                    rows.append({"name": nm + " (by value)", "symbol": sym, "stored": -1, "expected": -2, "readback": "error: %s" % str(e)[:80]})
         out.write(json.dumps({"kind": "options", "owner": o["owner"], "attr": o["attr"], "rows": rows}) + "\n")
     out.close()
     print(json.dumps({"unmapped_classes": unmapped}))
